@@ -225,16 +225,26 @@ class SchedLock:
         self._lock = threading.Lock()
         self.holder: Any = None
         self.acquisitions = 0
+        self.gave_up = 0
 
     def _free(self) -> bool:
         return self.holder is None
 
-    def acquire(self, blocking: bool = True, timeout: float = -1) -> bool:
-        self._sched.event("acquire:" + self._name, self._free)
-        ok = self._lock.acquire(False) if self._sched.current() is not None else self._lock.acquire()
+    def acquire(self, blocking: bool = True, timeout: Any = -1) -> bool:
+        """A blocking acquire without time-out is enabled only while the lock is free.  An
+        acquire that may give up (`blocking=False`, or a time-out: how long it lasts is not
+        modelled, the scheduler decides) is always enabled and returns False when the thread
+        is resumed while the lock is held -- i.e. 'the time-out expired first'."""
+        may_give_up = (not blocking) or (timeout is not None and timeout != -1)
+        self._sched.event("acquire:" + self._name, None if may_give_up else self._free)
+        managed = self._sched.current() is not None
+        if may_give_up and managed and self.holder is not None:
+            self.gave_up += 1
+            return False
+        ok = self._lock.acquire(False) if managed else self._lock.acquire()
         if not ok:
             raise RuntimeError("scheduler let a thread into a held lock")
-        self.holder = self._sched.current() if self._sched.current() is not None else "main"
+        self.holder = self._sched.current() if managed else "main"
         self.acquisitions += 1
         return True
 
